@@ -501,7 +501,11 @@ func (x *electExtra) reopenAndVerify() {
 func (x *electExtra) noisyRerun() {
 	c := x.c
 	withRandNoise(func(h *randNoise) {
-		fails := 0
+		type failure struct {
+			r   electRec
+			res []*types.PillarDelegation
+		}
+		var failed []failure
 		for _, r := range x.recs {
 			res, st := runElect(r.nodeCount, r.randCount, r.height, mkDelegs(r.in), false)
 			got := st
@@ -510,28 +514,32 @@ func (x *electExtra) noisyRerun() {
 			}
 			c.Hit("elect-under-global-rand-noise")
 			if got != r.quiet {
-				fails++
-				if fails <= 3 {
-					ds := mkDelegs(r.in)
-					addrs := func(l []*types.PillarDelegation) []types.Address {
-						out := make([]types.Address, len(l))
-						for i, d := range l {
-							out[i] = d.Producing
-						}
-						return out
-					}
-					quietRes, _ := func() ([]*types.PillarDelegation, string) {
-						h.disable()
-						defer h.enable()
-						return runElect(r.nodeCount, r.randCount, r.height, mkDelegs(r.in), false)
-					}()
-					c.Fail("election: SelectProducers(nodeCount=%d randCount=%d height=%d delegations=%s) elects (#i = i-th delegation) %s while other goroutines draw from the process-wide math/rand generator, and %s when nothing else runs (the list the model is compared with): the schedule is not a function of (delegations, proof height)",
-						r.nodeCount, r.randCount, r.height, describe(r.in), slotsText(addrs(res), ds), slotsText(addrs(quietRes), ds))
-				}
+				failed = append(failed, failure{r, res})
 			}
 		}
-		if fails > 3 {
-			c.Fail("election: %d of %d elections differ while other goroutines draw from the process-wide math/rand generator", fails, len(x.recs))
+		if len(failed) == 0 {
+			return
 		}
+		// the smallest inputs first
+		sort.SliceStable(failed, func(i, j int) bool { return len(failed[i].r.in) < len(failed[j].r.in) })
+		h.disable()
+		addrs := func(l []*types.PillarDelegation) []types.Address {
+			out := make([]types.Address, len(l))
+			for i, d := range l {
+				out[i] = d.Producing
+			}
+			return out
+		}
+		for k, f := range failed {
+			if k >= 3 {
+				break
+			}
+			r := f.r
+			ds := mkDelegs(r.in)
+			quietRes, _ := runElect(r.nodeCount, r.randCount, r.height, mkDelegs(r.in), false)
+			c.Fail("election: SelectProducers(nodeCount=%d randCount=%d height=%d delegations=%s) elects (#i = i-th delegation) %s while other goroutines draw from the process-wide math/rand generator, and %s when nothing else runs (the list the model is compared with): the schedule is not a function of (delegations, proof height)",
+				r.nodeCount, r.randCount, r.height, describe(r.in), slotsText(addrs(f.res), ds), slotsText(addrs(quietRes), ds))
+		}
+		c.Fail("election: %d of %d elections differ while other goroutines draw from the process-wide math/rand generator", len(failed), len(x.recs))
 	})
 }
